@@ -33,6 +33,7 @@ import (
 	"bytes"
 	"flag"
 	"fmt"
+	"io"
 	"math/rand"
 	"os"
 	"os/exec"
@@ -122,6 +123,86 @@ type pointRec struct {
 	before, after *c08.Model
 }
 
+// supervise runs the whole check in a worker process (this program again) and
+// passes its output and exit status on. The restart steps START real block
+// managers: a panic of the client on one of their goroutines cannot be
+// recovered and kills the process it happens in. The supervisor turns such a
+// death into what it is, a violation ("on restart ... syncing resumes"),
+// instead of a check that merely broke.
+func supervise(r *evid.Run) {
+	if os.Getenv("C08_WORKER") != "" {
+		return
+	}
+	exe, err := os.Executable()
+	if err != nil {
+		return // run unsupervised
+	}
+	cmd := exec.Command(exe, os.Args[1:]...)
+	cmd.Env = append(os.Environ(), "C08_WORKER=1")
+	cmd.Stdout = os.Stdout
+	tail := &tailWriter{max: 256 << 10}
+	cmd.Stderr = io.MultiWriter(os.Stderr, tail)
+	cmd.SysProcAttr = &syscall.SysProcAttr{Pdeathsig: syscall.SIGKILL}
+	runtime.LockOSThread() // Pdeathsig is tied to the thread that forks
+	err = cmd.Run()
+	out := tail.String()
+	i := strings.Index(out, "panic: ")
+	if j := strings.Index(out, "fatal error: "); j >= 0 && (i < 0 || j < i) {
+		i = j
+	}
+	if err == nil || i < 0 || !strings.Contains(out[i:], "\ngoroutine ") {
+		if ee, ok := err.(*exec.ExitError); ok {
+			os.Exit(ee.ExitCode())
+		}
+		if err != nil {
+			fmt.Fprintln(os.Stderr, "C08 supervisor:", err)
+			os.Exit(2)
+		}
+		os.Exit(0)
+	}
+	trace := out[i:]
+	// Shape: the innermost client function of the crashing goroutine.
+	fn := "unknown"
+	for _, ln := range strings.Split(trace, "\n") {
+		if k := strings.Index(ln, "github.com/lightninglabs/neutrino"); k == 0 {
+			fn = strings.TrimPrefix(ln, "github.com/lightninglabs/neutrino")
+			fn = strings.TrimLeft(fn, "./")
+			if p := strings.LastIndex(fn, "("); p > 0 {
+				fn = fn[:p]
+			}
+			break
+		}
+	}
+	if len(trace) > 6000 {
+		trace = trace[:6000]
+	}
+	r.Rule("the check's worker process died of a panic / fatal error of the client while crash images were being restarted")
+	r.Case("process-crash", true)
+	r.Violation(evid.Sig("c08/process-crash", fn), "the client panicked while a crash image was being restarted (started block manager / start-up / import re-run); first line: "+
+		strings.SplitN(trace, "\n", 2)[0], map[string]any{"trace": trace,
+		"reproduce": fmt.Sprintf("VERIF_SEED=%d ./check C08 %s", r.Seed, r.Tier)})
+	r.Finish(0)
+}
+
+// tailWriter keeps the last max bytes written to it.
+type tailWriter struct {
+	mu  sync.Mutex
+	max int
+	b   []byte
+}
+
+func (t *tailWriter) Write(p []byte) (int, error) {
+	t.mu.Lock()
+	t.b = append(t.b, p...)
+	if len(t.b) > 2*t.max {
+		t.b = append([]byte(nil), t.b[len(t.b)-t.max:]...)
+	}
+	t.mu.Unlock()
+	return len(p), nil
+}
+
+func (t *tailWriter) String() string { t.mu.Lock(); defer t.mu.Unlock(); return string(t.b) }
+
 func main() {
 	r := evid.New("C08", "fault_enumeration")
 	if *childSeed >= 0 {
@@ -137,7 +218,8 @@ func main() {
 		fmt.Fprintf(os.Stderr, "start child: not killed (%d real points, err=%v panic=%q)\n", out.RealPoints, out.Err, out.Panic)
 		os.Exit(4)
 	}
-	r.Rule("FAMILY 1: scripts = 2 FIXED ones whatever the seed (block headers 1..5 / filter headers 1..3, 4..5 / one more block / its filter header; and the same shape above one filter checkpoint interval: block tip 1203 with the filter store brought to 300, 1100, 1160, then 1207), seeded LONG ones (block tip 1000-2600 first, filter store brought to a drawn height within the last checkpoint interval / anywhere / onto a checkpoint, then as the seeded scripts) and seeded scripts (appends of 1-220 block headers, filter-header batches shaped like writeCFHeadersMsg, single and multi-header rollbacks, reorganisation composites = per block [filter rollback, block rollback], first new header alone, rest as batch) on the real stores sharing one bbolt DB; for EVERY primitive EVERY crash point is taken: before/after each flat-file write, torn at 1 byte / record-1 / one record of a longer batch / record+1 / total-1, after each file truncate, after each index commit; each crash image is opened like a restarting client and must (1) open, (2) hold exactly the entries from before or after the primitive in each store, (3) have whole-record files agreeing with the tips, (4) have by-hash lookups agreeing and no stale entries, (5) keep filter tip <= block tip, (5b) FILTER-HEADER SYNC RESUMES ON A QUIET CHAIN: the REAL block manager is constructed on the reopened stores and STARTED (block handler and filter-header handler goroutines) with one honest scripted peer behind its all-peers query and its batch dispatcher that answers getcfheaders / getcfcheckpt for exactly the image's block chain from the ground truth (filter hash = fixed function of the block hash, header = dsha256(hash || previous header) from the stored genesis filter header; the scripts write exactly these) and announces NO block: at the handler's own quiescent point (it announces, on its goroutine, that it goes to sleep until new block headers arrive) the filter-header store must have reached the block tip and hold the ground truth at every height, the block store must be unchanged; going to sleep with the filter tip below the block tip while block headers are current is a violation (nothing but a block that is not coming wakes it), as is a filter tip that has not moved after 4 getcfheaders answered in full; images with level tips are the control (must stay level); (6) let the REAL block manager be constructed on the reopened stores and commit one valid next header handed to its headers handler (tip advances by exactly that header), (7) accept appends that land at the right heights. " +
+	supervise(r)
+	r.Rule("FAMILY 1: scripts = 2 FIXED ones whatever the seed (block headers 1..5 / filter headers 1..3, 4..5 / one more block / its filter header; and the same shape above one filter checkpoint interval: block tip 1203 with the filter store brought to 300, 1100, 1160, then 1207), seeded LONG ones (block tip 1000-2600 first, filter store brought to a drawn height within the last checkpoint interval / anywhere / onto a checkpoint, then as the seeded scripts) and seeded scripts (appends of 1-220 block headers, filter-header batches shaped like writeCFHeadersMsg, single and multi-header rollbacks, reorganisation composites = per block [filter rollback, block rollback], first new header alone, rest as batch) on the real stores sharing one bbolt DB; for EVERY primitive EVERY crash point is taken: before/after each flat-file write, torn at 1 byte / record-1 / one record of a longer batch / record+1 / total-1, after each file truncate, after each index commit; each crash image is opened like a restarting client and must (1) open, (2) hold exactly the entries from before or after the primitive in each store, (3) have whole-record files agreeing with the tips, (4) have by-hash lookups agreeing and no stale entries, (5) keep filter tip <= block tip, (5b) FILTER-HEADER SYNC RESUMES ON A QUIET CHAIN: the REAL block manager is constructed on the reopened stores and STARTED (block handler and filter-header handler goroutines) with one honest scripted peer behind its all-peers query and its batch dispatcher that answers getcfheaders / getcfcheckpt for exactly the image's block chain from the ground truth (filter hash = fixed function of the block hash, header = dsha256(hash || previous header) from the stored genesis filter header; the scripts write exactly these) and announces NO block: at the handler's own quiescent point (it announces, on its goroutine, that it goes to sleep until new block headers arrive) the filter-header store must have reached the block tip and hold the ground truth at every height, the block store must be unchanged; going to sleep with the filter tip below the block tip while block headers are current is a violation (nothing but a block that is not coming wakes it), as is a filter tip that has not moved after 4 getcfheaders rounds to the honest peer; images with level tips are the control (must stay level); (6) let the REAL block manager be constructed on the reopened stores and commit one valid next header handed to its headers handler (tip advances by exactly that header), (7) accept appends that land at the right heights. " +
 		"FAMILY 2: seeded clean header imports (PoW-valid generated chains under 3 parameter presets; start height 0 / effective tip+1 / inside agreeing content; length 5-400; write batch size 1, 2, 7, a divisor, the length; stores pre-filled to block tip 0..120 with the block store ahead of the filter store by 0,1,2,3,5) run through the REAL chainimport import on the real stores with the same crash hooks; EVERY crash point announced during Import is taken; each image must pass (1)-(5) with 'before/after' = the states around the interrupted store call of the importer (so each store holds the pre-import content plus a prefix of the file ending at a durable-step boundary), hold above the prior content only the file's headers, let the block manager be constructed on the crash state, and then RE-RUNNING the same import on the recovered stores must succeed and yield exactly the complete final state, from which (6) and (7) must hold; one image in 4 (seeded) additionally gets (6)-(7) on a second copy of the crash state itself. " +
 		"START-UP FAMILY: the start-up itself is crashed on the complete client's real start-up path: neutrino.NewChainService (never started, no peers) runs on an EMPTY data directory with a database wrapper that announces a crash point before and after EVERY write transaction it is asked for, whoever makes it (filter database, header indexes, ban store; their number and order are recorded from the run, not assumed); every flat-file append seen between two such points additionally yields the torn-length images (1 byte / record-1 / ...); the completed start is a point too; the RESTART on each image is NewChainService again with the plain database, and the image must pass (1)-(7) with before = after = {genesis header, genesis filter header} read from the service's own stores, plus the public API: BestBlock = the highest block both chains reach, GetBlockHash(0) = genesis. Scenario 0 is fixed (regtest, defaults); the others draw chain (regtest, simnet, testnet3, mainnet, signet, testnet4), PersistToDisk and a filter-header assertion that agrees / is above the tip; SECOND GENERATION: the restart on a crash image (all images of scenario 0, seeded picks elsewhere) is itself crashed at every one of its own points; real SIGKILL in a child at every point of scenario 0 and two points of each other scenario. In family 1 every second image (and in family 2 the second look at the crash state) is also restarted through NewChainService instead of the two store constructors. " +
 		"distinct = (family, primitive / store-call kind @ composite / start @ state, crash-point class incl. the maker of the interrupted write transaction) plus one mark per import shape and start-up configuration; non-trivial = every image (each is a distinct on-disk state)")
